@@ -260,6 +260,12 @@ def check_case(case, cfgs, timeout_ms=60000, want_witness=True):
                     outs = ex.run_main()
                     res["loop_iters"] = ex.loop_iters
                     diffs = judge(case, refprog, ctx, db, ex, outs, ref_out)
+                    if not ref_out and "witness" not in out:
+                        # contract judges have no reference outputs: non-vacuity = some RAM output can be non-empty
+                        rw, mw = ctx.check(g_or(*[g_not(r_.is_empty()) for r_ in outs.values()]))
+                        out["witness"] = rw
+                        if rw == "sat":
+                            out["witness_facts"] = {k: [list(map(sym.s32, t)) for t in v] for k, v in db.concretize(mw).items()}
                     g = g_or(*[d for _, d in diffs])
                     tq = time.time()
                     r, model = ctx.check(g)
